@@ -11,7 +11,7 @@ def encoder_cases(wd, deep):
     out = os.path.join(wd, "mce.out")
     p = subprocess.run(["timeout", "3000", "tlc", "-workers", "1", "-metadir", os.path.join(wd, "me"), "-cleanup", "-noGenerateSpecTE",
                         "-config", cfg, os.path.join(vlib.SPEC, "MC_Encode.tla")], stdout=open(out, "w"), stderr=subprocess.STDOUT, cwd=wd,
-                       env=dict(os.environ, JAVA_TOOL_OPTIONS="-Xss512m"))
+                       env=dict(os.environ, JAVA_TOOL_OPTIONS=f"-Xss512m -Djava.io.tmpdir={vlib.tmpdir(wd)}"))
     txt = open(out, errors="replace").read()
     if "No error has been found" not in txt:
         raise vlib.ToolError("MC_Encode failed (model-level round trip or evaluation error):\n" + "\n".join(l for l in txt.splitlines() if not l.startswith('"CASE'))[-3000:])
@@ -56,7 +56,7 @@ def queue_files(v, wd, deep):
     out = os.path.join(wd, "qexport.out")
     p = subprocess.run(["timeout", "1800", "tlc", "-workers", "1", "-metadir", os.path.join(wd, "mq"), "-cleanup", "-noGenerateSpecTE",
                         "-config", cfg, os.path.join(vlib.SPEC, "MC_QueueExport.tla")], stdout=open(out, "w"), stderr=subprocess.STDOUT, cwd=wd,
-                       env=dict(os.environ, JAVA_TOOL_OPTIONS="-Xss512m"))
+                       env=dict(os.environ, JAVA_TOOL_OPTIONS=f"-Xss512m -Djava.io.tmpdir={vlib.tmpdir(wd)}"))
     qs = [json.loads(json.loads(l)[6:]) for l in open(out, errors="replace") if l.startswith('"QFILE')]
     if not qs or "No error has been found" not in open(out, errors="replace").read():
         raise vlib.ToolError("MC_QueueExport failed:\n" + open(out, errors="replace").read()[-2000:])
